@@ -114,24 +114,30 @@ where
         connection: &mut Connection,
         session: &mut Session,
         msg: ContextMessage,
-    ) -> Result<(), MqttError> {
+    ) -> Result<bool, MqttError> {
         match msg {
             ContextMessage::FireAndForget(msg) => {
                 if let Err(err) = Self::validate_packet_size(connection, msg.packet.as_ref()) {
                     // The caller may have dropped the operation's future: that is not an error.
                     let _ = msg.response_channel.send(Err(err));
-                    return Ok(());
+                    return Ok(false);
                 }
+
+                let packet_id = msg.packet.first().unwrap() >> 4; // Extract packet id, being the four MSB bits
 
                 tx.write(msg.packet.freeze().as_ref()).await?;
                 // The caller may have dropped the operation's future: that is not an error.
                 let _ = msg.response_channel.send(Ok(()));
+
+                if packet_id == DisconnectTx::PACKET_ID {
+                    return Ok(true); // Graceful disconnection, nothing is written after DISCONNECT.
+                }
             }
             ContextMessage::AwaitAck(mut msg) => {
                 if let Err(err) = Self::validate_packet_size(connection, msg.packet.as_ref()) {
                     // The caller may have dropped the operation's future: that is not an error.
                     let _ = msg.response_channel.send(Err(err));
-                    return Ok(());
+                    return Ok(false);
                 }
 
                 let packet_id = msg.packet.first().unwrap() >> 4; // Extract packet id, being the four MSB bits
@@ -140,7 +146,7 @@ where
                     if connection.send_quota == 0 {
                         // The caller may have dropped the operation's future: that is not an error.
                         let _ = msg.response_channel.send(Err(QuotaExceeded.into()));
-                        return Ok(());
+                        return Ok(false);
                     }
 
                     connection.send_quota -= 1;
@@ -177,7 +183,7 @@ where
                 if let Err(err) = Self::validate_packet_size(connection, msg.packet.as_ref()) {
                     // The caller may have dropped the operation's future: that is not an error.
                     let _ = msg.response_channel.send(Err(err));
-                    return Ok(());
+                    return Ok(false);
                 }
 
                 session
@@ -191,7 +197,7 @@ where
             }
         }
 
-        Ok(())
+        Ok(false)
     }
 
     async fn ack<'a, ReasonT>(
@@ -219,7 +225,7 @@ where
         connection: &mut Connection,
         session: &mut Session,
         packet: RxPacket,
-    ) -> Result<(), MqttError> {
+    ) -> Result<bool, MqttError> {
         match packet {
             RxPacket::Publish(publish) => {
                 let qos = publish.qos;
@@ -272,7 +278,7 @@ where
             }
             RxPacket::Disconnect(disconnect) => {
                 if disconnect.reason == DisconnectReason::Success {
-                    return Ok(()); // Graceful disconnection.
+                    return Ok(true); // Graceful disconnection.
                 }
 
                 return Err(disconnect.into());
@@ -357,7 +363,7 @@ where
             }
         }
 
-        Ok(())
+        Ok(false)
     }
 
     fn handle_connack(connection: &mut Connection, connack: &ConnackRx) {
@@ -580,11 +586,15 @@ where
             futures::select! {
                 maybe_rx_packet = pck_fut => {
                     let rx_packet = maybe_rx_packet.ok_or(SocketClosed)?;
-                    Self::handle_packet(tx, connection, session, rx_packet?).await?;
+                    if Self::handle_packet(tx, connection, session, rx_packet?).await? {
+                        return Ok(());
+                    }
                     pck_fut = rx.next().fuse();
                 },
                 maybe_msg = msg_fut => {
-                    Self::handle_message(tx, connection, session, maybe_msg.ok_or(HandleClosed)?).await?;
+                    if Self::handle_message(tx, connection, session, maybe_msg.ok_or(HandleClosed)?).await? {
+                        return Ok(());
+                    }
                     msg_fut = message_queue.next();
                 }
             }
